@@ -260,10 +260,10 @@ def run_fine_case(case: Dict[str, Any]) -> Dict[str, Any]:
                 ctl.wait_arrival()
             GDS = _mk_gds(E, ctl)
             for i, d in enumerate(case["ds"]):
-                types = [2147483647] if d["types"] == "A" else [D.TYPE_IDS[t] for t in d["types"]]
                 ds = GDS.__new__(GDS)
                 object.__setattr__(ds, "_vi", i)
-                ds.__init__("c", f"ds{i}", f"ds{i}", "f", E["get_formatter"](d["fmt"]), d["interval"], types, md)
+                ds.__init__("c", f"ds{i}", f"ds{i}", "f", E["get_formatter"](d["fmt"]), d["interval"],
+                            D.real_types(d["types"]), md)
                 tmps.append(getattr(ds.formatter, "data_tmp", None))      # placeholder formatter of __init__
                 dc.add_data_set(ds)
                 dsets.append(ds)
